@@ -107,6 +107,9 @@ def build(ch):
         order[4], order[5] = order[5], order[4]
     lits, listed = [], []
     snum = 60
+    # some side planes may carry a TR number whose displacement is along the prism axis: their locus is
+    # unchanged, but the point that represents them internally moves
+    tr_planes = ch.choose('tr-on-side-planes', [(), (0, 5), (2,), (0, 1, 2, 3, 4, 5)])
     for pos, k in enumerate(order):
         n2, dd = sides[k]
         n3 = Q @ np.array([n2[0], n2[1], 0.0])
@@ -115,6 +118,9 @@ def build(ch):
             d.add_surface(snum, 'p', list(-n3) + [-dd]); lits.append(snum)
         else:
             d.add_surface(snum, 'p', list(n3) + [dd]); lits.append(-snum)
+        if pos in tr_planes:
+            d.surfcards[snum] = '5 ' + d.surfcards[snum]
+            d.trcards[5] = (refsem.Motion(3.0 * (Q @ np.array([0.0, 0.0, 1.0]))), False)
         listed.append((n3, dd, -1))
         snum += 1
     axis = Q @ np.array([0.0, 0.0, 1.0])
